@@ -6,7 +6,7 @@
 import Optyx.Generated.PinsC11
 
 namespace Optyx.Props.PinsC11
-open Optyx.Generated
+open Optyx.Generated.PinsC11
 
 /-- `VectorVariable` (core/vectors.py) -/
 theorem pin_vectors_VectorVariable_anchor : pin_vectors_VectorVariable = "fe9f27f02e8adbf0" := rfl
